@@ -116,7 +116,8 @@ def gen_case(rng, tier):
             op["n_jobs"] = rng.choice((None, None, 2, 3, 1))
         ops.append(op)
     return {"inputs": {"insts": insts, "ldata": ldata, "idata": idata}, "ops": ops,
-            "config": {"parallel_mode": rng.choice(("proc", "thread-coop", "thread-preempt")), "p_switch": rng.choice((3, 8))}}
+            "config": {"parallel_mode": rng.choice(("proc", "thread-coop", "thread-preempt")), "p_switch": rng.choice((3, 8)),
+                       "interleave": rng.choice(("scheduler", "scheduler", "as-listed"))}}
 
 
 # ---------------------------------------------------------------- helpers
@@ -265,7 +266,8 @@ def _run(case, sched, world):
     refits_diff = 0
     par = 0
     evals = 0
-    for opi, op in enumerate(case["ops"]):
+    from sim.sched import interleave
+    for opi, op in interleave(sched, case["ops"], "inst", case["config"].get("interleave", "as-listed")):
         k, kind, j = op.get("inst"), op.get("op"), op.get("data")
         if not isinstance(k, int) or not 0 <= k < len(ests) or not isinstance(j, int) or not 0 <= j < len(inp["ldata"]):
             raise InvalidCase("op refs")
